@@ -2,6 +2,7 @@ package props
 
 import (
 	"fmt"
+	"go/token"
 	"go/types"
 	"sort"
 	"strings"
@@ -193,12 +194,14 @@ func init() {
 		ID: "C04",
 		Expl: "Decides structural necessary conditions of the codec round trip in pkg/packet/bgp: (E4.decode-produces) every concrete type implementing a codec interface is allocated by some function reachable from the parse entry points, so the decoder has a row for every type a serialiser exists for; " +
 			"(E4.attr-tables) the attribute factory switch, PathAttrFlags and the RFC flag classes agree row by row; (E2d) Serialize/Len/String/MarshalJSON/… of every type that can be stored in a route do not write their receiver (re-serialising is a fixpoint only if serialising has no side effect); " +
-			"(E3.codec) per type, the fields the decoder stores and the fields the serialiser loads agree.",
+			"(E3.emitted-length) framing helpers derive header length and the extended-length flag from the bytes they emit, not from a stored Length; (E6.addpath-direction) decoders ask for the receive direction of ADD-PATH and serialisers for the send direction.",
 		Not: "Byte-level correctness of any encoder/decoder, Len()==bytes emitted, equality after a round trip and RFC well-formedness of emitted messages are value-level and not decided.",
 		Run: func(c *Ctx) {
 			c.ruleDecodeProduces("E4.decode-produces", []string{"pkg/packet/bgp"}, 200)
 			c.ruleAttrTables()
 			c.rulePurity("E2d.pure", []string{"pkg/packet/bgp"}, 500)
+			c.ruleEmittedLength("E3.emitted-length", []string{"pkg/packet/bgp"}, 3)
+			c.ruleAddPathDirection("E6.addpath-direction")
 		},
 	})
 	register(&Check{
@@ -219,4 +222,134 @@ func init() {
 			c.ruleSplitters()
 		},
 	})
+}
+
+// ruleEmittedLength: framing helpers take the already-serialised value and write the header for it;
+// the length they test and write must be that of the value they emit, not a stored Length field.
+func (c *Ctx) ruleEmittedLength(rule string, pkgs []string, min int) {
+	r := c.R
+	r.Rule(rule, "framing helpers (methods that receive the serialised value as a []byte parameter and return the framed bytes): every read of the receiver's stored Length/Len field is tied to the bytes actually emitted — the field was assigned len(value) earlier in the same function, or the function compares it with len(value) and fails on mismatch; otherwise header length/flags can disagree with the body when the value grew after construction or decoding (ADD-PATH ids, edited Value)", min)
+	for _, fn := range c.P.FuncsIn(pkgs...) {
+		if fn.Parent() != nil || fn.Signature.Recv() == nil || len(fn.Params) < 2 || fn.Blocks == nil {
+			continue
+		}
+		if fn.Name() != "Serialize" && fn.Name() != "serialize" {
+			continue
+		}
+		var value *ssa.Parameter
+		for _, p := range fn.Params[1:] {
+			if isByteSlice(p.Type()) {
+				value = p
+			}
+		}
+		if value == nil {
+			continue
+		}
+		isLenValue := func(v ssa.Value) bool {
+			v = stripConv(v)
+			call, ok := v.(*ssa.Call)
+			if !ok {
+				return false
+			}
+			b, ok := call.Call.Value.(*ssa.Builtin)
+			return ok && b.Name() == "len" && call.Call.Args[0] == ssa.Value(value)
+		}
+		recv := fn.Params[0]
+		isLenField := func(addr ssa.Value) (*ssa.FieldAddr, bool) {
+			fa, ok := addr.(*ssa.FieldAddr)
+			if !ok || fa.X != ssa.Value(recv) {
+				return nil, false
+			}
+			n := ir.FieldOf(fa).Name()
+			return fa, n == "Length" || n == "Len"
+		}
+		var stores []*ssa.Store
+		var cmps []*ssa.BinOp
+		var loads []*ssa.UnOp
+		for _, b := range fn.Blocks {
+			for _, in := range b.Instrs {
+				switch x := in.(type) {
+				case *ssa.Store:
+					if _, ok := isLenField(x.Addr); ok && isLenValue(x.Val) {
+						stores = append(stores, x)
+					}
+				case *ssa.UnOp:
+					if x.Op == token.MUL {
+						if _, ok := isLenField(x.X); ok {
+							loads = append(loads, x)
+						}
+					}
+				}
+			}
+		}
+		// derived: the stored length, possibly through +/- constants or a receiver accessor that reads it
+		var derived func(v ssa.Value, depth int) bool
+		derived = func(v ssa.Value, depth int) bool {
+			v = stripConv(v)
+			switch x := v.(type) {
+			case *ssa.UnOp:
+				if x.Op == token.MUL {
+					_, ok := isLenField(x.X)
+					return ok
+				}
+			case *ssa.BinOp:
+				if _, ok := x.Y.(*ssa.Const); ok && (x.Op == token.ADD || x.Op == token.SUB) {
+					return derived(x.X, depth)
+				}
+			case *ssa.Call:
+				callee := x.Call.StaticCallee()
+				if callee == nil || depth > 0 || callee.Signature.Recv() == nil || len(x.Call.Args) == 0 || x.Call.Args[0] != ssa.Value(recv) || callee.Blocks == nil {
+					return false
+				}
+				for _, b := range callee.Blocks {
+					for _, in := range b.Instrs {
+						if fa, ok := in.(*ssa.FieldAddr); ok && fa.X == ssa.Value(callee.Params[0]) {
+							if n := ir.FieldOf(fa).Name(); n == "Length" || n == "Len" {
+								return true
+							}
+						}
+					}
+				}
+			}
+			return false
+		}
+		for _, b := range fn.Blocks {
+			for _, in := range b.Instrs {
+				bo, ok := in.(*ssa.BinOp)
+				if !ok || bo.Op != token.NEQ && bo.Op != token.EQL {
+					continue
+				}
+				if derived(bo.X, 0) && isLenValue(bo.Y) || derived(bo.Y, 0) && isLenValue(bo.X) {
+					cmps = append(cmps, bo)
+				}
+			}
+		}
+		fk := ir.FuncKey(fn)
+		if len(loads) == 0 {
+			r.Ok(rule, fk, "header from emitted value", c.P.Pos(fn.Pos()), "stored length is not read")
+			continue
+		}
+		bad := ""
+		for _, l := range loads {
+			tied := false
+			for _, st := range stores {
+				if dominatesInstr(st, l) {
+					tied = true
+				}
+			}
+			for _, cmp := range cmps {
+				if stripConv(cmp.X) == ssa.Value(l) || stripConv(cmp.Y) == ssa.Value(l) || cmp.Block().Dominates(l.Block()) {
+					tied = true
+				}
+			}
+			if !tied {
+				bad = c.P.InstrPos(l)
+			}
+		}
+		if bad == "" {
+			r.Ok(rule, fk, "header from emitted value", c.P.Pos(fn.Pos()), fmt.Sprintf("%d stored-length reads, each tied to len(value)", len(loads)))
+		} else {
+			r.Bad(rule, fk, "header from emitted value", bad, "the stored Length field is read without being tied to len(value): the header (length octets / extended-length flag) is derived from a number that can differ from the bytes emitted")
+		}
+	}
 }
